@@ -15,4 +15,5 @@ def rules(ctx, tier):
         lambda: identity.rule_ident(ctx),
         lambda: mutation.rule_triple(ctx),
         lambda: mutation.rule_esc(ctx),
+        lambda: config.rule_sidamb(ctx),
     ]
